@@ -754,6 +754,16 @@ func checkBuilders(r *ev.Run) {
 				r.Violation("obj/BuildMaterialOBJ/unknown-material", "face group references material "+g.Material, c)
 			}
 		}
+		checkOBJFiles(r, tris, c)
+		// the io.Writer forms of the encoders that the round-trip stages judge
+		var wb bytes.Buffer
+		if err := model3d.WriteSTL(&wb, tris); err != nil || !bytes.Equal(wb.Bytes(), model3d.EncodeSTL(tris)) {
+			r.Violation("writer/WriteSTL", fmt.Sprintf("WriteSTL (error %v) does not write the bytes of EncodeSTL", err), c)
+		}
+		wb.Reset()
+		if err := model3d.WritePLY(&wb, tris, colorOf); err != nil || !bytes.Equal(wb.Bytes(), model3d.EncodePLY(tris, colorOf)) {
+			r.Violation("writer/WritePLY", fmt.Sprintf("WritePLY (error %v) does not write the bytes of EncodePLY", err), c)
+		}
 		var buf bytes.Buffer
 		if err := model3d.Write3MF(&buf, fileformats.ThreeMFUnitMillimeter, tris); err != nil {
 			r.Violation("3mf/write-error", err.Error(), c)
